@@ -20,11 +20,12 @@ def compact(events, ifi="vf0"):
             continue
         if ev == "reset":
             if "bad" in e:
-                out.append({"ev": "reset", "id": e["id"], "unicast": False, "cfglife": 0, "mode": "adv", "strict": False, "t": 0})
+                out.append({"ev": "reset", "id": e["id"], "unicast": False, "cfglife": 0, "mode": "adv", "strict": False, "quiet": False, "min": 0, "max": 0, "t": 0})
                 out.append({"ev": "panic", "t": 0})
                 continue
             out.append({"ev": "reset", "id": e["id"], "unicast": e["unicast"], "cfglife": e["cfglife"],
-                        "mode": e["mode"], "strict": e.get("min", 0) >= 150000, "t": 0})
+                        "mode": e["mode"], "strict": e.get("min", 0) >= 150000, "quiet": bool(e.get("quiet", False)),
+                        "min": e.get("min", 0), "max": e.get("max", 0), "t": 0})
         elif ev == "dial":
             out.append({"ev": ev, "k": e["k"], "res": e["res"], "t": t})
         elif ev in ("done", "rcall"):
